@@ -236,6 +236,12 @@ verif_sleep_for(const chrono::duration<R, P> &)
 {
   ::verif::SpinHint(1);
 }
+// std::this_thread::yield() in a waiting loop: a spin hint as well (otherwise such a loop never hands the baton back)
+inline void
+verif_yield() noexcept
+{
+  ::verif::SpinHint(2);
+}
 }  // namespace this_thread
 }  // namespace std
 inline void
@@ -251,6 +257,7 @@ verif_mm_pause()
 #define atomic_thread_fence verif_atomic_thread_fence
 #define sleep_for verif_sleep_for
 #define _mm_pause verif_mm_pause
+#define yield verif_yield
 #ifndef VERIF_SHIM_NO_WEAK
 #define weak_ptr verif_weak_ptr
 #endif
